@@ -747,7 +747,7 @@ bool sim_in_lib_data(const void *ptr, size_t len)
 /* per-run allocations with guards                                          */
 /* ------------------------------------------------------------------------ */
 
-#define MAX_ALLOCS 64
+#define MAX_ALLOCS 4096
 static struct {
 	void *base;		/* malloc'ed block */
 	unsigned char *user;
